@@ -28,26 +28,25 @@ Count(recs, name) == LET RECURSIVE C(_, _)
 \* last `slack` items - the verdict branch itself
 VerdictSyms == {"github.com/bilibili/smgo/utils.ConstantTimeCmp", "github.com/bilibili/smgo/sm2.TestPrivateKey",
                 "crypto/subtle.ConstantTimeCompare", "main.main.func1"}
-RECURSIVE SegsOK(_, _, _, _, _, _)
-SegsOK(a, b, k, offa, offb, slack) ==
+RECURSIVE SegsOK(_, _, _, _)
+SegsOK(a, b, k, slack) ==
   IF k > Len(a.records) THEN k > Len(b.records)
   ELSE IF k > Len(b.records) THEN FALSE
   ELSE LET ra == a.records[k]  rb == b.records[k]
        IN /\ ra.sym = rb.sym
           /\ IF ra.sym \in VerdictSyms
-             THEN L!EqualUpToVerdict(SubSeq(a.items, offa + 1, offa + ra.n), SubSeq(b.items, offb + 1, offb + rb.n), slack)
+             THEN L!EqualUpToVerdict(ra.it, rb.it, slack)       \* the filter keeps the items of these segments
              ELSE ra = rb
-          /\ SegsOK(a, b, k + 1, offa + ra.n, offb + rb.n, slack)
+          /\ SegsOK(a, b, k + 1, slack)
 
 Expect(s, ev) ==
   CASE ev.op = "leak.pair" ->
          IF ev.mode = "same"
          THEN [st |-> s,
-               ok |-> ev.a.records = ev.b.records /\ ev.a.total = ev.b.total
-                      /\ (ev.hasitems => ev.a.items = ev.b.items),
+               ok |-> ev.a.records = ev.b.records /\ ev.a.total = ev.b.total,
                why |-> "leak " \o ev.prim \o ": trace depends on the secret"]
          ELSE [st |-> s,
-               ok |-> ev.hasitems /\ SegsOK(ev.a, ev.b, 1, 0, 0, ev.slack),
+               ok |-> SegsOK(ev.a, ev.b, 1, ev.slack),
                why |-> "leak " \o ev.prim \o ": trace depends on the secret before the verdict"]
     [] ev.op = "leak.schedule" ->
          [st |-> s,
